@@ -89,6 +89,13 @@ def cell_str(v):
 
 
 def _check(name_i, thr_i, n, specs):
+    # history: the same process has just exported results of ANOTHER database (same row ids, other names and thresholds) in every
+    # format, with exporter objects of its own; nothing of that may show up in what follows
+    dw = world(1 if name_i != 1 else name_i, (thr_i + 1) % len(THRS))
+    ditems = [make_item(dw, *sp) for sp in specs[:n]] or [make_item(dw, 0, 1, 1, 0, False, False)]
+    dres = QueryResults(items=ditems, params=QueryParams(), genomeset=dw[1], signaturesmeta=SignaturesMeta(id='decoy'), extra={})
+    for exporter in (CSVResultsExporter(), JSONResultsExporter(), ResultsArchiveWriter()):
+        exporter.export(io.StringIO(), dres)
     w = world(name_i, thr_i)
     s, gset, taxa, gens = w
     items = [make_item(w, *sp) for sp in specs[:n]]
